@@ -190,6 +190,10 @@ def check_phase(res, spec, obs, ph, ta=25.0, want=("C01", "C02", "C04"), d=None,
                     res.v(("C02.tpeak", rec["k"], "inactive" if not active(rec, ph) else ("dead" if g(r, "Vin (V)") == 0 else "live")), "%s peak %r but ta+rise %r" % (name, tp, ta + tr))
     if "C02" in want and not close(psrc, pload + ploss, 1e-4, 5e-8 * vmax * len(d)):
         res.v(("C02.system", "neg-source-rs" if any_neg_rs_source else "plain"), "sources %r loads+losses %r" % (psrc, pload + ploss))
+    if "C02" in want and (ph, "System total") in obs:   # the table's own total row states the same balance
+        tr_ = obs[(ph, "System total")]
+        if not close(g(tr_, "Power (W)"), psrc, 1e-9, 1e-15) or not close(g(tr_, "Loss (W)"), ploss, 1e-9, 1e-15):
+            res.v(("C02.total-row",), "phase %r System total P %r L %r, rows give %r / %r" % (ph, g(tr_, "Power (W)"), g(tr_, "Loss (W)"), psrc, ploss))
     return rows
 
 
